@@ -1,7 +1,7 @@
 #!/bin/bash
 # usage: tools/runall.sh [seed] [tier] ids...  — run checks sequentially, one summary line each
 seed=${1:-1}; tier=${2:-quick}; shift 2
-cd /verif
+cd "$(dirname "$0")/.."
 for p in "$@"; do
   s=$(date +%s)
   out=$(VERIF_SEED=$seed python3 tools/check.py $p --tier $tier 2>&1); rc=$?
